@@ -106,6 +106,26 @@ PROPS["C08"] = {
     "assumptions": ["targets healthy and instantaneous"],
 }
 
+PROPS["C10"] = {
+    "test": "TestC10", "level": "exploration", "registered": True, "engine": "sim",
+    "shards_quick": 8, "shards_thorough": 16, "timeout": 900,
+    "technique": "runtime monitor with metamorphic oracles over observed routing decisions (stickiness, monotonicity in the percentage, allowlist, share) and a history model for set/stop/redeploy",
+    "level_text": "For generated well-formed cookie values all 101 percentages are set one after the other on the real router and the side that answered is observed: the same answer on repetition, included at p implies included at every p' > p, included at 100, allowlisted values always on the rollout side, requests without the cookie always active. Over 5000 (thorough 20000) random 16-hex values the included share at 13 percentages must be within 3 points. Hostile Cookie headers are judged by the metamorphic relations only. Histories of rollout deploy / set / stop / redeploy are judged by an exact model (100%, 0%+allowlist).",
+    "level_note": "Trusted: fake targets' marker header. Inclusion is observed, never recomputed from the code's hash. Share tolerance +-3 points (FNV is not binomial). Empty cookie values are not generated.",
+    "rule": "classes: grid (allowlist size, decile of values included by 50%), share (percentage), history (first six commands), hostile; non-trivial = all (each evaluates >= 4000 routing decisions or a command history)",
+    "assumptions": ["go1.26.8 net/http cookie parsing; headers rejected by net/http with 400 are outside the proxy"],
+}
+
+PROPS["C11"] = {
+    "test": "TestC11", "level": "exploration", "registered": True, "engine": "sim",
+    "shards_quick": 8, "shards_thorough": 16, "timeout": 1200,
+    "technique": "runtime differential monitor (bisimulation by testing): observable snapshot of the original proxy vs a proxy restored from its state file, then the same continuation on both",
+    "level_text": "Random histories of 1-15 commands over <= 4 multi-host, multi-path, multi-target services with every option varied (static certificate, wildcard hosts, sub-path services, custom error pages, buffering limits, forward headers, timeouts, health-check path/interval, header logging, pause/stop with message and max-pause, rollout targets and split). After a restart point (3 per history in quick, every prefix in thorough) a fresh router restores the file the original wrote at that point; its ~110-key observable snapshot (routing matrix with echoed URI and forwarded headers, cookie panel, body-size panel, slow request vs target timeout, requests over TLS, health-path requests, list, parsed state file, probe path and cadence seen by the targets) must equal the original's, the history's own next 1-8 commands must return the same results on it without panicking, and the snapshots must agree again afterwards.",
+    "level_note": "Trusted: snapshot panel; targets always healthy (the stated licence). The health-check timeout is compared through the re-saved state file only. Commands run under recover(): a panic is a violation (it would kill the real process).",
+    "rule": "a class is (kind of the last command before the restart, kind of the first command after it, number of services saved); every restart point is an evaluation of the restore path on a non-empty history",
+    "assumptions": ["go1.26.8 synctest", "static certificate generated by the harness; automatic TLS not exercised (no network)"],
+}
+
 ENGINES = [
     {"name": "sim", "path": "/verif/harness (world_test.go)", "kind_free_text": "real internal/server code in a testing/synctest bubble (virtual time) on an in-memory network with scripted fake targets and hook-placed delays; monitors judge recorded events", "serves_properties": []},
 ]
